@@ -1103,6 +1103,10 @@ def signature(source: str) -> Tuple[list[Party], list[Input], list[Output]]:
         and len(outputs) > 0
         and all(isinstance(output, Output) for output in outputs)
     ):
-        return Abstract.signature()
+        # The program's outputs are the ones nada_main returns, in that order
+        # (an Output that is constructed but not returned is not an output of
+        # the program).
+        (parties, inputs, _) = Abstract.signature()
+        return (parties, inputs, list(outputs))
 
     raise ValueError("nada_main must return a sequence of outputs")
